@@ -73,6 +73,9 @@ func confined(t *sqlh.TableDesc, e fakesql.Entry, limit sqlh.Filter, pool sqlh.P
 	if err != nil {
 		return "unparsable statement: " + err.Error()
 	}
+	if st.Kind == fakesql.Explain && st.Inner != nil {
+		st = st.Inner // the EXPLAIN of a statement reaches the database too: the statement must be confined
+	}
 	if !strings.EqualFold(st.Table, t.Name) {
 		return "statement on another table " + st.Table
 	}
